@@ -152,6 +152,17 @@ def r3(ctx: Ctx) -> None:
             names = {dst}
             ok = any((t.replace(' ', '') in (f'os.path.exists({dst})'.replace(' ', ''), f'os.path.lexists({dst})'.replace(' ', ''), f'os.path.isdir({dst})'.replace(' ', '')) and not tr)
                      or (t.replace(' ', '') == f'notos.path.exists({dst})'.replace(' ', '') and tr) for t, tr in g)
+            if not ok and isinstance(e.dest, ast.Name):
+                # the destination was *chosen* as the first name that does not exist: `next(p for p in candidates if not os.path.exists(p))`
+                ds_ = [fl.cfg.stmt.get(d_) for d_ in fl.cfg.defs_reaching(st, e.dest.id) if d_ != 'param']
+                def first_free(v_):
+                    if not (isinstance(v_, ast.Call) and call_name(v_) == 'next' and v_.args and isinstance(v_.args[0], ast.GeneratorExp) and len(v_.args) == 1):
+                        return False
+                    ge = v_.args[0]
+                    var = ge.elt.id if isinstance(ge.elt, ast.Name) else None
+                    tests = [src(c_).replace(' ', '') for g_ in ge.generators for c_ in g_.ifs]
+                    return var is not None and any(t_ in (f'notos.path.exists({var})', f'notos.path.lexists({var})') for t_ in tests)
+                ok = bool(ds_) and all(isinstance(s_, ast.Assign) and first_free(s_.value) for s_ in ds_)
             label = f'move:{src(e.path)[:24]}->{dst[:24]}'
             if ok:
                 ctx.ok('C15.R3', f, f'{label}: destination tested for non-existence', e.node, label)
